@@ -2519,7 +2519,7 @@ fn main() {
     }
 
     let mut rng = Rng::new(args.seed);
-    let n = args.count(800, 30000);
+    let n = args.count(5000, 200000);
     for _ in 0..n {
         generate_case(&mut rng, &mut out);
     }
